@@ -240,6 +240,45 @@ def rule_reply_shape(ctx):
     ctx.ob(R, fi, fi.node, len(tp) == 1 and [unparse(x) for x in tp[0].ast.args] == ["topic", "part"], "partition identity of the reply entry", text="tp")
 
 
+
+def sentinel_exact(ctx, R):
+    fi = ctx.fn(f"{GC}._do_fetch_commit_offsets")
+    c = ctx.cfg(fi)
+    st = [n for n in c.nodes if n.kind == "store" and isinstance(n.ast, ast.Subscript) and unparse(n.ast.value) == "offsets"]
+    ctx.anchor(len(st) == 1, "offsets[tp] = ... in _do_fetch_commit_offsets")
+    if len(st) == 1:
+        # which reply offsets count as `committed`: exactly the non-negative ones (-1 = UNKNOWN_OFFSET is the only sentinel); decided by
+        # evaluating the guard facts that hold at the store for the boundary values -1, 0, 1
+        import re
+        from ..rulekit import must_facts
+        facts = [a for a in must_facts(c)[st[0]] if re.search(r"(?<![\w.])offset(?![\w])", a[0] + " " + a[2])]
+        OPS = {"<": lambda a, b: a < b, "<=": lambda a, b: a <= b, "==": lambda a, b: a == b, "!=": lambda a, b: a != b}
+
+        def val(tx, v):
+            if tx == "offset":
+                return v
+            if tx in ("UNKNOWN_OFFSET", "-1"):
+                return -1
+            if re.fullmatch(r"-?\d+", tx):
+                return int(tx)
+            return None
+        verdict = {}
+        evaluable = True
+        for v in (-1, 0, 1, 2 ** 40):
+            r = True
+            for l, op, rr in facts:
+                a, b = val(l, v), val(rr, v)
+                if a is None or b is None or op not in OPS:
+                    evaluable = False
+                    continue
+                r = r and OPS[op](a, b)
+            verdict[v] = r
+        ok = evaluable and bool(facts) and verdict == {-1: False, 0: True, 1: True, 2 ** 40: True}
+        ctx.ob(R, fi, st[0], ok, f"the reply offset is recorded as committed under the guards {sorted(facts)}: recorded for {[v for v, r in verdict.items() if r]} "
+                                 "-- it must be recorded exactly when it is not -1 (a committed offset of 0 is a commit; dropping it resets the position by policy)",
+               text="sentinel-exact")
+
+
 def rule_committed_source(ctx):
     R = "committed-source"
     ctx.rep.rule(R, "waiters for the committed offset are answered from the OffsetFetch reply for exactly the partitions that were asked about "
@@ -285,6 +324,7 @@ def rule_committed_source(ctx):
         b = [u for u in uc if c.dominated_by_branch(it[0], l_out, u)]
         ok = len(a) == 1 and len(b) == 1 and unparse(arg_of(a[0].ast, 0)) == f"offsets[{unparse(it[0].ast.left)}]" and "UNKNOWN_OFFSET" in unparse(arg_of(b[0].ast, 0))
     ctx.ob(R, fi, fi.node, ok, "committed waiters are not answered `reply offset, else UNKNOWN`", text="answer-values")
+    sentinel_exact(ctx, R)
     ds = local_defs(c, "offsets")
     ctx.ob(R, fi, fi.node, len(ds) == 1 and ds[0].stmt is fo.stmt, "`offsets` is not the OffsetFetch result", text="offsets-def")
     hs = [m for m, l in fo.succ if l == "exc" and m.kind == "handler"]
